@@ -94,6 +94,8 @@ type Env struct {
 	peers  []erpc.Peer
 	Notes  []string
 	OpByTag map[string]*Op
+	// AllowUnknownArgs: handlers may legitimately receive arguments that carry no known tag (hostile/empty bodies)
+	AllowUnknownArgs bool
 }
 
 // Probe counts that a rare condition was reached.
